@@ -5,8 +5,11 @@ go 1.22
 require (
 	github.com/andybalholm/brotli v1.1.0
 	github.com/caddyserver/certmagic v0.20.0
+	github.com/golang/snappy v0.0.4
 	github.com/klauspost/compress v1.17.8
+	github.com/pierrec/lz4/v4 v4.1.21
 	github.com/tmpim/casket v0.0.0
+	github.com/ulikunitz/xz v0.5.12
 )
 
 require (
@@ -15,7 +18,6 @@ require (
 	github.com/dsnet/compress v0.0.2-0.20210315054119-f66993602bf5 // indirect
 	github.com/dustin/go-humanize v1.0.1 // indirect
 	github.com/flynn/go-shlex v0.0.0-20150515145356-3f9db97f8568 // indirect
-	github.com/golang/snappy v0.0.4 // indirect
 	github.com/google/uuid v1.6.0 // indirect
 	github.com/gorilla/websocket v1.5.1 // indirect
 	github.com/hashicorp/go-syslog v1.0.0 // indirect
@@ -31,12 +33,10 @@ require (
 	github.com/naoina/go-stringutil v0.1.0 // indirect
 	github.com/naoina/toml v0.1.1 // indirect
 	github.com/nwaples/rardecode v1.1.3 // indirect
-	github.com/pierrec/lz4/v4 v4.1.21 // indirect
 	github.com/quic-go/qpack v0.4.0 // indirect
 	github.com/quic-go/quic-go v0.43.0 // indirect
 	github.com/rakyll/statik v0.1.7 // indirect
 	github.com/russross/blackfriday v1.6.0 // indirect
-	github.com/ulikunitz/xz v0.5.12 // indirect
 	github.com/xi2/xz v0.0.0-20171230120015-48954b6210f8 // indirect
 	github.com/zeebo/blake3 v0.2.3 // indirect
 	go.uber.org/multierr v1.11.0 // indirect
